@@ -9,3 +9,6 @@ Definition EllipE (m : R) : R := RInt (fun t => sqrt (1 - m * (sin t) ^ 2)) 0 (P
 (* incomplete integrals used by Ellipsoid.surface_area: ellipeinc(phi, m), ellipkinc(phi, m) *)
 Definition EllipEinc (phi m : R) : R := RInt (fun t => sqrt (1 - m * (sin t) ^ 2)) 0 phi.
 Definition EllipFinc (phi m : R) : R := RInt (fun t => / sqrt (1 - m * (sin t) ^ 2)) 0 phi.
+
+(* numpy.sinc(x) = sin(pi x) / (pi x) (numpy defines the value 1 at x = 0; the formulas that use it are only evaluated at x <> 0) *)
+Definition sinc_np (x : R) : R := sin (PI * x) / (PI * x).
